@@ -246,6 +246,7 @@ class Check:
             remaining = list(self.cases)
             open(ip, "w").close()
             crashes = 0
+            hangs = 0
             while remaining:
                 part_in = os.path.join(self.work, "cases.part.txt")
                 part_out = os.path.join(self.work, "impl.part.txt")
@@ -270,9 +271,15 @@ class Check:
                         self.broken.append("harness run on the implementation exited %d (%s)" % (rc, "timeout" if rc == 124 else head))
                         break
                     cid = crashed.split(" ", 1)[0]
+                    if "did not return within" in head:
+                        hangs += 1
                     acc.write("%s OBS CRASH\n%s PRED FAIL crash the process running the code under test died on this case: %s\n" % (cid, cid, head.replace("\n", " ")))
                     crashes += 1
                     remaining = remaining[len(done) + 1:]
+                    if hangs >= 3:
+                        # each blocked case costs its whole deadline; three are replay enough
+                        self.notes.append("three cases blocked the code under test; the %d cases after them were not run" % len(remaining))
+                        break
             if crashes:
                 self.notes.append("%d case(s) crashed the harness process and were isolated" % crashes)
             for l in open(ip):
